@@ -286,3 +286,64 @@ func stalledPush(d Directed, v *vt.V) {
 		}
 	}
 }
+
+// reentrantListing: a consumer uses the registry while it is part-way through a listing (resolving
+// each listed tag, listing the tags of each listed repository), and other goroutines go on working.
+func reentrantListing(d Directed, v *vt.V) {
+	mem := ocimem.New()
+	m := []byte(`{"opaque":"manifest"}`)
+	for r := 0; r < 3; r++ {
+		for t := 0; t < max(min(d.Size, 40), 2); t++ {
+			if _, err := mem.PushManifest(ctx, fmt.Sprintf("repo%d", r), fmt.Sprintf("t%d", t), m, "application/vnd.verif.opaque"); err != nil {
+				v.Failf("harness", "%v", err)
+				return
+			}
+		}
+	}
+	done := make(chan string, 1)
+	go func() {
+		for i := 0; i < max(d.Iters/100, 2); i++ {
+			for repo, err := range mem.Repositories(ctx, "") {
+				if err != nil {
+					done <- fmt.Sprintf("Repositories: %v", err)
+					return
+				}
+				for tag, err := range mem.Tags(ctx, repo, "") {
+					if err != nil {
+						done <- fmt.Sprintf("Tags(%s): %v", repo, err)
+						return
+					}
+					if _, err := mem.ResolveTag(ctx, repo, tag); err != nil {
+						done <- fmt.Sprintf("ResolveTag(%s, %s) of a listed tag: %v", repo, tag, err)
+						return
+					}
+					// another goroutine's operation completes while this loop body is running
+					other := make(chan error, 1)
+					go func() {
+						_, err := mem.PushManifest(ctx, "elsewhere", "x", m, "application/vnd.verif.opaque")
+						other <- err
+					}()
+					select {
+					case err := <-other:
+						if err != nil {
+							done <- fmt.Sprintf("PushManifest from another goroutine: %v", err)
+							return
+						}
+					case <-time.After(10 * time.Second):
+						done <- "a PushManifest issued by another goroutine while a Tags iteration was between two items has not returned within 10 s"
+						return
+					}
+				}
+			}
+		}
+		done <- ""
+	}()
+	select {
+	case msg := <-done:
+		if msg != "" {
+			v.Failf("listing-holds-the-registry", "%s", msg)
+		}
+	case <-time.After(30 * time.Second):
+		v.Failf("listing-holds-the-registry", "a consumer that resolves each tag while iterating over Tags (inside an iteration over Repositories) has not finished within 30 s: the iteration keeps the registry to itself")
+	}
+}
